@@ -2,6 +2,7 @@ package props
 
 import (
 	"bytes"
+	"context"
 	"encoding/json"
 	"fmt"
 	"github.com/aml-org/amf-custom-validator/pkg/events"
@@ -32,7 +33,9 @@ func c10Multi(k int) string {
 }
 
 func c10Profiles() []string {
-	return []string{PoolProfileMin, PoolProfileLevels, c10Multi(4), c10Multi(7), PoolProfileSpecial}
+	// the last one parses but fails in code generation (undeclared prefix): an error for its caller, nothing for anyone else
+	return []string{PoolProfileMin, PoolProfileLevels, c10Multi(4), c10Multi(7), PoolProfileSpecial,
+		strings.Replace(PoolProfileMin, "targetClass: ex.Thing", "targetClass: acme.Thing", 1)}
 }
 
 func c10Profiles2(k int) string {
@@ -50,6 +53,10 @@ func c10Profiles2(k int) string {
 	}
 	return multi(k)
 }
+
+// c10CtxPath: a JSON-LD context file the last two documents refer to with @import (written by C10 into its scratch directory;
+// the load process gets the path through the environment).
+func c10CtxPath() string { return os.Getenv("VERIF_C10_CTX") }
 
 func c10Datas() []string {
 	things := `{"@graph":[{"@id":"http://example.org/d#a","@type":"http://example.org/ns#Thing","http://example.org/ns#p0":"ok","http://example.org/ns#p1":"bad","http://example.org/ns#p2":"ok","http://example.org/ns#p3":"ok","http://example.org/ns#p5":"nope","http://example.org/ns#name":"a"},
@@ -71,7 +78,10 @@ func c10Datas() []string {
 		b.WriteString("]}")
 		return b.String()
 	}
-	return []string{PoolDataGood, PoolDataBad, things, PoolDataEmpty, PoolDataGarbage, large(false), large(true)}
+	ctx := c10CtxPath()
+	named := fmt.Sprintf(`{"@context": {"@import": %q, "name": "ex:name"}, "@id": "http://example.org/d#imported-a", "@type": "Thing", "name": "A"}`, ctx)
+	unnamed := fmt.Sprintf(`{"@context": {"@import": %q}, "@id": "http://example.org/d#imported-b", "@type": "Thing", "name": "B"}`, ctx)
+	return []string{PoolDataGood, PoolDataBad, things, PoolDataEmpty, PoolDataGarbage, large(false), large(true), named, unnamed}
 }
 
 func c10Configs() []config.ReportConfiguration {
@@ -88,14 +98,43 @@ func C10Load(seed int64, rounds int) {
 	for i, p := range profiles {
 		q, err := pkg.CompileProfile(p, false, nil)
 		if err != nil {
+			if i == len(profiles)-1 {
+				continue // the profile that is meant not to compile
+			}
 			fmt.Printf("{\"fatal\": %q}\n", err.Error())
 			return
 		}
 		shared[i] = q
 	}
+	var blocked int32
+	var soloRaw func(j c10job) string
 	solo := func(j c10job) string {
+		if atomic.LoadInt32(&blocked) >= 3 {
+			return "skipped: earlier calls blocked"
+		}
+		done := make(chan string, 1)
+		go func() {
+			defer func() {
+				if r := recover(); r != nil {
+					done <- fmt.Sprintf("panic: %v", r)
+				}
+			}()
+			done <- soloRaw(j)
+		}()
+		select {
+		case o := <-done:
+			return o
+		case <-time.After(45 * time.Second):
+			atomic.AddInt32(&blocked, 1)
+			return "blocked: the call did not return within 45 s"
+		}
+	}
+	soloRaw = func(j c10job) string {
 		var out string
 		var err error
+		if j.Kind == "validate-compiled" && shared[j.Profile] == nil {
+			j.Kind = "validate-text"
+		}
 		switch j.Kind {
 		case "compile+validate":
 			var q *rego.PreparedEvalQuery
@@ -119,15 +158,34 @@ func C10Load(seed int64, rounds int) {
 		di := r.Intn(5)
 		if r.Intn(10) == 0 {
 			di = 5 + r.Intn(2) // the large documents: mostly exercised by the aligned rounds below
+		} else if r.Intn(6) == 0 {
+			di = 7 + r.Intn(2) // the documents that import a context file
 		}
 		jobs = append(jobs, c10job{kinds[r.Intn(3)], r.Intn(len(profiles)), di, r.Intn(len(configs))})
 	}
 	// what each call returns when it runs alone
 	alone := map[c10job]string{}
+	blockedJobs := []c10job{}
+	history := []c10job{}
 	for _, j := range jobs {
 		if _, ok := alone[j]; !ok {
 			alone[j] = solo(j)
+			if strings.HasPrefix(alone[j], "blocked:") && len(blockedJobs) < 3 {
+				blockedJobs = append(blockedJobs, j)
+			}
+			if len(blockedJobs) == 0 {
+				history = append(history, j)
+				if len(history) > 6 {
+					history = history[len(history)-6:]
+				}
+			}
 		}
+	}
+	if len(blockedJobs) > 0 {
+		// calls made one after the other already block: nothing concurrent is needed to show it
+		out, _ := json.Marshal(map[string]any{"jobs": len(jobs), "distinct_jobs": len(alone), "mismatches": []int{}, "blocked": blockedJobs, "before_the_first_blocked_call": history})
+		fmt.Println(string(out))
+		return
 	}
 	type mismatch struct {
 		Job        c10job
@@ -272,7 +330,7 @@ func C10Load(seed int64, rounds int) {
 
 func C10(e *core.Env) {
 	res := e.Res
-	res.Rule = "cases = concurrent calls: 8 goroutines x rounds of jobs drawn from {CompileProfile+ValidateCompiled, ValidateWithConfiguration from text, ValidateCompiledWithConfiguration sharing ONE compiled profile} x 5 profiles (incl. profiles with 8 and 14 path rules) x 7 documents (incl. unreadable, and two documents larger than 64 KiB over the same node ids, one conforming and one not) x 3 report configurations with different schema IRIs, in a -race build of the harness; every returned report / error is compared byte-wise (fixed clock) with what the same call returns when it runs alone, and every distinct call is repeated alone after the concurrent phase; aligned rounds: 8 calls whose listeners hold the stage-start event until all have reached it enter Rego generation together (8 different profiles) and enter normalisation together (two large documents), each compared with the call alone, followed by the same calls alone; any data race reported by the race detector is a violation; " +
+	res.Rule = "cases = concurrent calls: 8 goroutines x rounds of jobs drawn from {CompileProfile+ValidateCompiled, ValidateWithConfiguration from text, ValidateCompiledWithConfiguration sharing ONE compiled profile} x 6 profiles (one of which fails in code generation) x 9 documents (incl. two that @import one context file, unreadable, and two documents larger than 64 KiB over the same node ids, one conforming and one not) x 3 report configurations with different schema IRIs, in a -race build of the harness; every returned report / error is compared byte-wise (fixed clock) with what the same call returns when it runs alone, and every distinct call is repeated alone after the concurrent phase; aligned rounds: 8 calls whose listeners hold the stage-start event until all have reached it enter Rego generation together (8 different profiles) and enter normalisation together (two large documents), each compared with the call alone, followed by the same calls alone; any data race reported by the race detector is a violation; " +
 		"non-trivial = the job compiles a profile or uses a non-default configuration; distinct by (kind, profile, data, configuration)"
 	raceBin := filepath.Join(e.Scratch, "verifh-race")
 	cmd := exec.Command("go", "build", "-race", "-o", raceBin, "./cmd/verifh")
@@ -283,16 +341,23 @@ func C10(e *core.Env) {
 		return
 	}
 	rounds := e.Pick(12, 120)
+	ctxFile := filepath.Join(e.Scratch, "c10ctx.jsonld")
+	os.WriteFile(ctxFile, []byte(`{"@context": {"ex": "http://example.org/ns#", "Thing": "ex:Thing"}}`), 0o644)
+	os.Setenv("VERIF_C10_CTX", ctxFile)
 	for run := 0; run < e.Pick(2, 6); run++ {
-		c := exec.Command(raceBin, "c10load", fmt.Sprint(e.Seed+int64(run)), fmt.Sprint(rounds))
-		c.Env = append(os.Environ(), "GORACE=halt_on_error=0 exitcode=0")
+		cctx, ccancel := context.WithTimeout(context.Background(), 40*time.Minute)
+		c := exec.CommandContext(cctx, raceBin, "c10load", fmt.Sprint(e.Seed+int64(run)), fmt.Sprint(rounds))
+		defer ccancel()
+		c.Env = append(os.Environ(), "GORACE=halt_on_error=0 exitcode=0", "VERIF_C10_CTX="+ctxFile)
 		var so, se bytes.Buffer
 		c.Stdout, c.Stderr = &so, &se
 		err := c.Run()
 		var result struct {
-			Jobs, Distinct int `json:"-"`
-			JobsN          int `json:"jobs"`
-			DistinctN      int `json:"distinct_jobs"`
+			Blocked        []c10job
+			Before         []c10job `json:"before_the_first_blocked_call"`
+			Jobs, Distinct int      `json:"-"`
+			JobsN          int      `json:"jobs"`
+			DistinctN      int      `json:"distinct_jobs"`
 			Fatal          string
 			Mismatches     []struct {
 				Job        c10job
@@ -318,6 +383,15 @@ func C10(e *core.Env) {
 				map[string]any{"seed": e.Seed + int64(run), "rounds": rounds, "race_report": core.Trunc(se.String(), 6000), "how": "go build -race; 8 goroutines of mixed compile / validate jobs (harness/props/c10.go C10Load)"})
 		}
 		profiles, datas, configs := c10Profiles(), c10Datas(), c10Configs()
+		for _, bj := range result.Blocked {
+			hist := []map[string]any{}
+			for _, h := range result.Before {
+				hist = append(hist, map[string]any{"kind": h.Kind, "profile": core.Trunc(profiles[h.Profile], 400), "data_index": h.Data})
+			}
+			res.Violate("impl-violates-property", "a "+bj.Kind+" call made alone, after a few other calls in the process, does not return (45 s)",
+				map[string]any{"job": bj, "profile": profiles[bj.Profile], "data": core.Trunc(datas[bj.Data], 2000), "calls_made_before_in_this_process": hist,
+					"note": "the same call returns at once in a fresh process: an earlier call left something locked", "seed": e.Seed + int64(run), "rounds": rounds})
+		}
 		for _, m := range result.Mismatches {
 			ptext := ""
 			if m.Job.Profile >= 0 {
